@@ -238,6 +238,33 @@ def ir_diff(real_ir, model):
     return None
 
 
+def header_diff(rh, mh, opts):
+    """Header facts extracted by irx vs the Lean header model. None if equal."""
+    if not mh:
+        return 'model: no header'
+    ast = 'n' not in opts
+    checks = [
+        ('pegRuleType', rh.get('pegRuleType'), mh.get('pegRuleType')),
+        ('ruleNames', rh.get('ruleNames'), mh.get('ruleNames')),
+        ('rul3s', rh.get('rul3s'), mh.get('ruleNames')),
+        ('rulesLen', str(rh.get('rulesLen')), str(mh.get('rulesLen'))),
+        ('imports', rh.get('imports'), mh.get('imports')),
+        ('matchDot', 'matchDot' in (rh.get('funcs') or []), bool(mh.get('hasDot'))),
+        ('matchString', 'matchString' in (rh.get('funcs') or []), bool(mh.get('hasString'))),
+        ('Execute', 'Execute' in (rh.get('methods') or []), bool(mh.get('hasActions')) and ast),
+        ('PegText case', bool(rh.get('hasPegTextCase')), bool(mh.get('hasPush')) and bool(mh.get('hasActions')) and ast),
+        ('endSymbol', rh.get('endSymbol'), '1114112'),
+    ]
+    if ast and mh.get('hasActions'):
+        ra = {k: _ws.sub('', v) for k, v in (rh.get('actions') or {}).items()}
+        ma = {k: _ws.sub('', v) for k, v in (mh.get('actions') or {}).items()}
+        checks.append(('actions', ra, ma))
+    for name, a, b in checks:
+        if a != b:
+            return 'header %s: real %s | model %s' % (name, json.dumps(a)[:200], json.dumps(b)[:200])
+    return None
+
+
 def b64(s):
     return base64.b64encode(s if isinstance(s, bytes) else s.encode('utf-8', 'surrogateescape')).decode()
 
